@@ -27,6 +27,10 @@ const (
 	// re-created by the claim controller after the definition reconciler listed the XRs (empty)
 	// and before the same reconcile deletes the XR CRD.
 	findingClaimCtrl = "xr-recreated-by-claim-controller-between-empty-list-and-crd-delete"
+	// Open: the guard of that repair (the definition controller waits for the offered controller's
+	// finalizer) is bypassed when a third party strips that finalizer from the deleting XRD while the
+	// claim controller is still running.
+	findingStripped = "xr-recreated-by-claim-controller-after-third-party-removed-offered-finalizer"
 )
 
 // interloperOps are the steps another actor may take in the middle of an XRD reconcile. They are
@@ -140,6 +144,11 @@ func (w *world) interloped(run *verifsim.Run, a act, gk schema.GroupKind) client
 		var snap *worldSnap
 		var pending []string
 		open := excludeKnown && listed && verifkit.OpenFinding("C08", findingFor(a.Mid.Op))
+		if excludeKnown && listed && !open && a.Op == "rec-def" && a.Mid.Op == "rec-claim" && w.offeredFinalizerStripped() {
+			// exactly the shape of the open finding: deleting XRD that offers a claim, offered finalizer gone,
+			// claim controller still running, claim reconcile after the definition reconcile's empty XR list
+			open = verifkit.OpenFinding("C08", findingStripped)
+		}
 		if open {
 			pending = w.sim.TakeViolations()
 			snap = w.snapshot()
@@ -161,6 +170,14 @@ func (w *world) interloped(run *verifsim.Run, a act, gk schema.GroupKind) client
 		}
 	}
 	return h
+}
+
+// offeredFinalizerStripped: the XRD is being deleted, no longer carries the offered controller's
+// finalizer, and yet the claim controller it offered is still running - which the offered controller
+// never leaves behind by itself (it drops its finalizer only after it stopped that controller).
+func (w *world) offeredFinalizerStripped() bool {
+	xrd := w.sim.Get(xrdKey)
+	return xrd != nil && verifsim.Terminating(xrd) && !has(verifsim.Finalizers(xrd), finOffered) && w.eng.running[claimCtrl]
 }
 
 // afterEmptyList reports whether call index k of a recorded run comes after the run's list of gk.
@@ -286,6 +303,10 @@ func knownRows() []knownRow {
 	return []knownRow{
 		{name: "claim-controller", key: findingClaimCtrl,
 			prefix:   []act{{Op: "del-xrd"}, {Op: "rec-def"}, {Op: "rec-xr"}},
+			action:   act{Op: "rec-def", Mid: &act{Op: "rec-claim"}, MidK: 5},
+			wantCall: "delete apiextensions.k8s.io/CustomResourceDefinition//xthings.example.org"},
+		{name: "offered-finalizer-stripped", key: findingStripped,
+			prefix:   []act{{Op: "del-xrd"}, {Op: "unfin", Obj: "xrd", Fin: finOffered}, {Op: "rec-def"}, {Op: "rec-xr"}},
 			action:   act{Op: "rec-def", Mid: &act{Op: "rec-claim"}, MidK: 5},
 			wantCall: "delete apiextensions.k8s.io/CustomResourceDefinition//xthings.example.org"},
 	}
